@@ -509,4 +509,122 @@ theorem evalOK_all (o : SubsetOut) : ∀ n, EvalOK o n := by
         subst ht
         exact ⟨ihf, hRf, hSf⟩)
 
+/-! ### one subset, the whole message -/
+
+theorem pathOK_of (comps : List Comp) (hp : childAttrOnly comps = true)
+    (hs : ∀ c ∈ comps, sliceOK c.slice = true) : PathOK comps := by
+  refine ⟨fun c hc => ?_, hs⟩
+  unfold childAttrOnly at hp
+  rw [List.all_eq_true] at hp
+  have := hp c hc
+  simpa using this
+
+theorem evalComps_cons (js : List NJ) (c : Comp) (rest : List Comp) :
+    evalComps js (c :: rest) =
+      if c.sep = '/' then evalSel rest c js else if c.sep = '.' then .error .query else .error .other := rfl
+
+/-- one subset: filtering the tree and reading the values = evaluating the path over the rendering -/
+theorem processOne_eval (o : SubsetOut) (tree : List Node) (js : List NJ) (comps : List Comp)
+    (hr : renderNested o tree = .ok js) (hshape : repsOKList o tree = true) (hP : PathOK comps) :
+    runVals o.vals (processOne o.descs tree comps) = evalComps js comps := by
+  cases comps with
+  | nil => rfl
+  | cons c rest =>
+    unfold renderNested at hr
+    rw [renderNodes_eq_mapE] at hr
+    obtain ⟨hl, hT⟩ := pairs_ok o (renderNode o) (fun _ _ h => Or.inl h) tree js hr
+      (fun m _ => evalOK_all o m) hshape
+    rw [evalComps_cons]
+    simp only [processOne]
+    rcases hP.1 c List.mem_cons_self with h | h
+    · have hnd : ¬ c.sep = '.' := by rw [h]; decide
+      rw [if_neg hnd, if_pos h]
+      rw [zip_conts o.descs c rest tree js hl, list_eval o c rest hP _ hT, zip_map_snd tree js hl]
+    · rw [if_pos h, if_neg (sep_dot_ne_slash h), if_pos h]
+      rfl
+
+theorem mapE_getElem {α β : Type} (g : α → CM β) : ∀ (l : List α) (xs : List β), mapE g l = .ok xs →
+    ∀ (i : Nat) (a : α), l[i]? = some a → ∃ b, xs[i]? = some b ∧ g a = .ok b
+  | [], _, _, i, a, ha => by simp at ha
+  | a0 :: as, xs, h, i, a, ha => by
+    rw [mapE] at h
+    split at h
+    · cases h
+    · next b hb =>
+      split at h
+      · cases h
+      · next bs hbs =>
+        cases h
+        cases i with
+        | zero =>
+          simp only [List.getElem?_cons_zero, Option.some.injEq] at ha
+          subst ha
+          exact ⟨b, rfl, hb⟩
+        | succ j =>
+          simp only [List.getElem?_cons_succ] at ha ⊢
+          exact mapE_getElem g as bs hbs j a ha
+
+theorem mapE_length {α β : Type} (g : α → CM β) (l : List α) (xs : List β) (h : mapE g l = .ok xs) :
+    xs.length = l.length := (mapE_zip g l xs h).1
+
+/-- subset `i` of `evalPath` -/
+def specSubset (nested : List (List NJ)) (comps : List Comp) (i : Nat) : CM (Nat × List QV) :=
+  match nested[i]? with
+  | none => .error .other
+  | some js => match evalComps js comps with
+    | .error e => .error e
+    | .ok vs => .ok (i, vs)
+
+theorem evalPath_eq (nested : List (List NJ)) (sel : List Nat) (comps : List Comp) :
+    evalPath nested sel comps = mapIdx (specSubset nested comps) sel := rfl
+
+/-- subset `i` of an uncompressed message -/
+theorem uncompressedSubset_eval (m : QMsg) (nested : List (List NJ)) (comps : List Comp)
+    (hn : nestedOf m = .ok nested) (hshape : shapeOK m = true) (hP : PathOK comps) (i : Nat) :
+    uncompressedSubset m comps i = specSubset nested comps i := by
+  unfold specSubset
+  unfold nestedOf at hn
+  have hlen := mapE_length _ _ _ hn
+  unfold uncompressedSubset
+  cases ho : m.outs[i]? with
+  | none =>
+    have hi : m.outs.length ≤ i := by
+      rcases Nat.lt_or_ge i m.outs.length with h | h
+      · rw [List.getElem?_eq_getElem h] at ho; cases ho
+      · exact h
+    have : nested[i]? = none := by
+      apply List.getElem?_eq_none
+      rw [hlen, List.length_zip]; omega
+    rw [this]
+  | some o =>
+    simp only
+    cases ht : m.trees[i]? with
+    | none =>
+      have hi : m.trees.length ≤ i := by
+        rcases Nat.lt_or_ge i m.trees.length with h | h
+        · rw [List.getElem?_eq_getElem h] at ht; cases ht
+        · exact h
+      have : nested[i]? = none := by
+        apply List.getElem?_eq_none
+        rw [hlen, List.length_zip]; omega
+      rw [this]
+    | some t =>
+      simp only
+      have hz : (m.outs.zip m.trees)[i]? = some (o, t) := by
+        rw [List.getElem?_zip_eq_some]; exact ⟨ho, ht⟩
+      obtain ⟨js, hjs, hr⟩ := mapE_getElem _ _ _ hn i (o, t) hz
+      have hsh : repsOKList o t = true := by
+        unfold shapeOK at hshape
+        rw [List.all_eq_true] at hshape
+        exact hshape (o, t) (List.mem_of_getElem? hz)
+      have := processOne_eval o t js comps hr hsh hP
+      rw [hjs]
+      simp only
+      rw [← this]
+      cases processOne o.descs t comps with
+      | error e => rfl
+      | ok hits =>
+        simp only [runVals]
+        cases valuesOf o.vals hits <;> rfl
+
 end Bufr.C16
